@@ -1,6 +1,7 @@
 import QR.Proofs.Raster
 import QR.Proofs.SourceTieC12
 import QR.Proofs.Pinned
+import QR.Proofs.SourceTieB5
 /-
 C12 - raster geometry (image/base.py, pure.py, pil.py).  Both raster back ends produce a square of
 `(modules + 2*border) * box_size` pixels in which pixel (x, y) has the fill colour iff module
@@ -85,6 +86,43 @@ example : let M : Mods := [[true, false], [false, true]]
 /-- `BaseImage.pixel_box` as it stands in the source is the model's `pixelBox` -/
 theorem C12_source_pixel_box (border box row col : Nat) :
     Gen.Code.pixel_box border box row col = pixelBox border box row col := QR.SourceTie.pixelBox_eq border box row col
+
+
+/-! ### Source tie, part 2 (T2 plugins `tools/t2_fragments/`): the hand-written Model equals the definitions translated from
+    /repo's current Python AST (`QR.Gen.Code`, regenerated on every run). Restated verbatim from `QR/Proofs/SourceTie*.lean`. -/
+section SourceTieT2
+open QR.Model QR.Gen.Code QR.SourceTieB
+
+/-- `border_rows_iter()`: `border * box_size` rows of `box_size * (width + border * 2)` ones -/
+theorem C12_source_pypngBorderRows_src (width border boxSize : Nat) :
+    pypng_border_rows width border boxSize =
+      List.replicate (border * boxSize) (List.replicate (boxSize * (width + border * 2)) 1) :=
+  QR.SourceTieB.pypngBorderRows_src width border boxSize
+
+/-- `rows_iter()`: for every matrix (any shape), width, border and box size -/
+theorem C12_source_pypngRows_src (M : Mods) (width border boxSize : Nat) :
+    pypngRows M width border boxSize = pypng_rows M width border boxSize :=
+  QR.SourceTieB.pypngRows_src M width border boxSize
+
+/-- `new_image`: a square greyscale image of `pixel_size`, one bit per pixel; `save` feeds it `rows_iter()` -/
+theorem C12_source_pypngWriter_src :
+    pypng_writer = "qrcode.compat.png.PngWriter" ∧ (∀ p, pypng_writer_args p = (p, p, true, 1)) ∧
+    pypng_save_call = "self._img.write(stream, self.rows_iter())" :=
+  QR.SourceTieB.pypngWriter_src
+
+/-- `BaseImage.__init__`: `pixel_size` -/
+theorem C12_source_pixelSize_src (width border boxSize : Nat) : pixelSize width border boxSize = pixel_size border width boxSize :=
+  QR.SourceTieB.pixelSize_src width border boxSize
+
+/-- every row of the PNG has `pixel_size` entries when the matrix is `width` wide, and there are `pixel_size` rows when it
+    is `width` high: the image handed to `PngWriter(pixel_size, pixel_size, ...)` has the declared size -/
+theorem C12_source_pypngRows_dims (M : Mods) (width border boxSize : Nat) (hlen : M.length = width)
+    (hrow : ∀ row ∈ M, row.length = width) :
+    (pypng_rows M width border boxSize).length = (pypng_writer_args (pixel_size border width boxSize)).2.1 ∧
+    ∀ row ∈ pypng_rows M width border boxSize, row.length = (pypng_writer_args (pixel_size border width boxSize)).1 :=
+  QR.SourceTieB.pypngRows_dims M width border boxSize hlen hrow
+
+end SourceTieT2
 
 /-- the Python functions this property's model mirrors have, in /repo's current working tree, exactly the normalised
     ASTs the model was written and validated against (fingerprints regenerated by T1 on every run) -/
